@@ -48,6 +48,7 @@ class CallLog:
         self._orig["_consider_line"] = inner
 
         def consider(p_self, line):
+            log.current = getattr(p_self, "_verif_member", None)
             try:
                 return inner(p_self, line)
             except Exception:
@@ -58,16 +59,30 @@ class CallLog:
                 raise
 
         CsvPath._consider_line = consider
+        # CsvPaths.stop_all(): the cross-path signal, raised by the member that is considering a line (Archive!SignalStopAll)
+        from csvpath import CsvPaths
+        orig_stop_all = CsvPaths.stop_all
+        self._orig["stop_all"] = orig_stop_all
+
+        def stop_all(cps_self, *a, **kw):
+            r = orig_stop_all(cps_self, *a, **kw)
+            log.calls.append({"ev": "stopall", "m": (log.current + 1) if log.current is not None else 0})
+            return r
+
+        CsvPaths.stop_all = stop_all
+        self.current = None
         self.abort_member = 0
         self.abort_line = -1
 
     def uninstall(self):
         from csvpath.managers.results.results_manager import ResultsManager
-        from csvpath import CsvPath
+        from csvpath import CsvPath, CsvPaths
 
         for name, orig in self._orig.items():
             if name == "_consider_line":
                 CsvPath._consider_line = orig
+            elif name == "stop_all":
+                CsvPaths.stop_all = orig
             else:
                 setattr(ResultsManager, name, orig)
         self._orig = {}
@@ -205,6 +220,8 @@ def project_run(cp, group, texts, members_cases, records, rec, calls, method, ra
     return {
         "kind": "serial" if method in SERIAL else "byline",
         "nmem": len(members_cases),
+        # IMPL (spec/CHOICES.md): among the serial methods only next_paths looks at stop_all() before it starts a member
+        "honours": method == "next_paths",
         "calls": calls,
         "outcome": "aborted" if raised else "complete",
         "raised": bool(raised),
